@@ -186,8 +186,14 @@ func strEq(x, y value) value {
 		case (sa.K == SegNum || sa.K == SegInt) && sa.K == sb.K:
 			ta, enda, oka := tokTerminated(a, i)
 			tb, endb, okb := tokTerminated(b, j)
-			if !oka || !okb || enda != endb || ta != tb {
+			if !oka || !okb {
 				panic(needFlatten{"number tokens not aligned"})
+			}
+			if enda != endb || ta != tb {
+				// both extents are unambiguous and the aligned prefixes are
+				// equal so far: equal strings would need equal token texts
+				// followed by the same byte (or both by the end)
+				return false
 			}
 			cs = append(cs, Eq(sa.T, sb.T))
 		case (sa.K == SegNum || sa.K == SegInt) && sb.K == SegByte:
